@@ -50,7 +50,8 @@ Fixpoint join (sep : string) (l : list string) : string :=
 
 (* ---------------------------------------------------------------- the abstract class diagram *)
 
-Record param := { p_type : string; p_name : string; p_default : string }.   (* p_default: "" or the formatted " = v" *)
+Record param := { p_type : string; p_name : string; p_default : string; p_ext : string }.
+(* p_default: "" or the formatted " = v";  p_ext: the array extent of the rendered name ("" or "[4]") *)
 Record oper := { o_name : string; o_vis : string; o_ret : string; o_params : list param;
                  o_virtual : bool; o_static : bool; o_const : bool }.
 Record cls := { c_id : string; c_name : string; c_ns : string;
@@ -132,10 +133,28 @@ Record entry := { en_class : string; en_owner : string; en_owner_pure : bool; en
 Definition vis_match (vis : string) (o : oper) : bool :=
   String.eqb (lower (py_strip vis)) (lower (py_strip (o_vis o))) || String.eqb (lower (py_strip vis)) "all".
 
-Definition own_entries (vis realizing : string) (c : cls) : list entry :=
+(* GetOperationSignature: what makes two operations the same member function *)
+Definition sig_key (o : oper) : string * list string * bool :=
+  (py_strip (o_name o), map (fun p => p_type p ++ p_ext p) (o_params o), o_const o).
+
+Fixpoint strs_eqb (a b : list string) : bool :=
+  match a, b with
+  | [], [] => true
+  | x :: a', y :: b' => String.eqb x y && strs_eqb a' b'
+  | _, _ => false
+  end.
+Definition key_eqb (a b : string * list string * bool) : bool :=
+  String.eqb (fst (fst a)) (fst (fst b)) && strs_eqb (snd (fst a)) (snd (fst b)) && Bool.eqb (snd a) (snd b).
+Definition declared_of (c : cls) : list (string * list string * bool) := map sig_key (c_ops c).
+
+(* `if REALIZING_CLASS and signature in DECLARED: continue` *)
+Definition keep (realizing : string) (declared : list (string * list string * bool)) (o : oper) : bool :=
+  String.eqb realizing "" || negb (existsb (key_eqb (sig_key o)) declared).
+
+Definition own_entries (vis realizing : string) (declared : list (string * list string * bool)) (c : cls) : list entry :=
   map (fun o => {| en_class := if String.eqb realizing "" then c_name c else realizing; en_owner := c_name c;
                    en_owner_pure := c_pure c; en_realised := negb (String.eqb realizing ""); en_op := o |})
-      (filter (vis_match vis) (c_ops c)).
+      (filter (fun o => keep realizing declared o && vis_match vis o) (c_ops c)).
 
 Fixpoint collect {A} (l : list (option A)) : option (list A) :=
   match l with
@@ -154,27 +173,30 @@ Definition parents_of (d : cdiagram) (realizing : string) (c : cls) : option (li
   | None => None
   end.
 
-Fixpoint ops_of (fuel : nat) (d : cdiagram) (vis realizing : string) (c : cls) : option (list entry) :=
+(* [declared]: the signatures the realising class declares itself (recomputed at the top, where no class is realising yet) *)
+Fixpoint ops_of (fuel : nat) (d : cdiagram) (vis realizing : string) (declared : list (string * list string * bool)) (c : cls)
+  : option (list entry) :=
   match fuel with
   | O => None
   | S f =>
+      let declared' := if String.eqb realizing "" then declared_of c else declared in
       match parents_of d realizing c with
       | None => None
       | Some ps =>
-          match collect (map (ops_of f d vis (if String.eqb realizing "" then c_name c else realizing)) ps) with
+          match collect (map (ops_of f d vis (if String.eqb realizing "" then c_name c else realizing) declared') ps) with
           | None => None
-          | Some rs => Some (List.concat rs ++ own_entries vis realizing c)%list
+          | Some rs => Some (List.concat rs ++ own_entries vis realizing declared' c)%list
           end
       end
   end.
 
 (* header side: the three visibility sections; source side: "all" *)
 Definition decls_of (fuel : nat) (d : cdiagram) (c : cls) : option (list entry) :=
-  match ops_of fuel d "public" "" c, ops_of fuel d "protected" "" c, ops_of fuel d "private" "" c with
+  match ops_of fuel d "public" "" [] c, ops_of fuel d "protected" "" [] c, ops_of fuel d "private" "" [] c with
   | Some a, Some b, Some g => Some (a ++ b ++ g)%list
   | _, _, _ => None
   end.
-Definition defs_of (fuel : nat) (d : cdiagram) (c : cls) : option (list entry) := ops_of fuel d "all" "" c.
+Definition defs_of (fuel : nat) (d : cdiagram) (c : cls) : option (list entry) := ops_of fuel d "all" "" [] c.
 
 (* ---------------------------------------------------------------- rendering (DeclareFunction, ParameterString) *)
 
@@ -203,6 +225,23 @@ Definition signature (e : entry) : string * string * string * list (string * str
   (en_class e, ret_of e, o_name (en_op e), map (fun p => (p_type p, p_name p)) (o_params (en_op e)), o_const (en_op e)).
 
 (* ---------------------------------------------------------------- input domain (boolean, extracted) *)
+
+(* the classes GetOperationPerVisibility may descend into from c, whatever the realisation flags are *)
+Definition edge_parents (d : cdiagram) (c : cls) : list cls :=
+  filter c_pure (flat_map (fun i => match find_class (classes d) (i_from i) with Some p => [p] | None => [] end)
+                          (filter (fun i => contains (c_id c) (i_to i)) (inhs d))).
+
+(* every chain of such edges that starts at c has at most n classes *)
+Fixpoint bounded (n : nat) (d : cdiagram) (c : cls) : bool :=
+  match n with O => false | S m => forallb (bounded m d) (edge_parents d c) end.
+
+(* no realisation / generalisation cycle among pure virtual interfaces is reachable from a class of the diagram:
+   in a diagram of N classes a chain of more than N classes repeats one *)
+Definition acyclic (d : cdiagram) : bool := forallb (bounded (List.length (classes d)) d) (classes d).
+
+(* no inheritance entry points to a class that is not in the diagram *)
+Definition closed (d : cdiagram) : bool :=
+  forallb (fun i => match find_class (classes d) (i_from i) with Some _ => true | None => false end) (inhs d).
 
 Definition vis3 (o : oper) : bool :=
   existsb (String.eqb (lower (py_strip (o_vis o)))) ["public"; "protected"; "private"].
